@@ -115,6 +115,23 @@ Check C20_rounded_operations_profile_free :
     run_dd pf1 m op x y n = run_dd pf2 m op x y n.
 Print Assumptions C20_rounded_operations_profile_free.
 
+(* the separately written integer-operand bodies (Decimal op int, int op Decimal, int op int), every
+   operation, outside the recorded finding K1 (n <= 18) *)
+Theorem C20_integer_forms_profile_free :
+  forall pf1 pf2 m op t d i j n,
+    wf d = true -> - MAXC <= i <= MAXC -> - MAXC <= j <= MAXC -> 0 <= n <= 18 ->
+    run_di pf1 m op t d i n = run_di pf2 m op t d i n /\
+    run_id pf1 m op t i d n = run_id pf2 m op t i d n /\
+    run_ii pf1 m op i j n = run_ii pf2 m op i j n.
+Proof. exact int_forms_profile_free. Qed.
+Check C20_integer_forms_profile_free :
+  forall pf1 pf2 m op t d i j n,
+    wf d = true -> - MAXC <= i <= MAXC -> - MAXC <= j <= MAXC -> 0 <= n <= 18 ->
+    run_di pf1 m op t d i n = run_di pf2 m op t d i n /\
+    run_id pf1 m op t i d n = run_id pf2 m op t i d n /\
+    run_ii pf1 m op i j n = run_ii pf2 m op i j n.
+Print Assumptions C20_integer_forms_profile_free.
+
 Theorem C20_div_rounded_closed_form :
   forall pf m cx px cy py n,
     - MAXC <= cx <= MAXC -> - MAXC <= cy <= MAXC -> cy <> 0 ->
